@@ -1,0 +1,95 @@
+//! Verification hooks (cargo feature `verif_hooks`, off by default).
+//!
+//! Thin wrappers that expose crate-private functions to an external differential-testing harness.
+//! No logic lives here: every function only calls the real implementation and dumps its result.
+use crate::block_parser::parse_blocks_from_comments;
+use crate::language_parsers::Comment;
+use crate::tag_parser::{BlockTag, BlockTagParser, WinnowBlockTagParser};
+use crate::validators::ValidationContext;
+use crate::Position;
+use serde_json::{Value, json};
+
+/// Drives the tag scanner over `comment_text` until it is exhausted.
+pub fn tags(comment_text: &str) -> Vec<Value> {
+    let mut parser = WinnowBlockTagParser::new(comment_text, 0);
+    let mut out = Vec::new();
+    loop {
+        match parser.next() {
+            Ok(Some(BlockTag::Start {
+                tag_range,
+                attributes,
+            })) => out.push(json!({
+                "k": "start",
+                "s": tag_range.start,
+                "e": tag_range.end,
+                "attrs": attributes,
+                "cursor": parser.cursor(),
+            })),
+            Ok(Some(BlockTag::End { start_position })) => out.push(json!({
+                "k": "end",
+                "s": start_position,
+                "cursor": parser.cursor(),
+            })),
+            Ok(None) => break,
+            Err(e) => {
+                out.push(json!({"k": "err", "msg": e.to_string()}));
+                break;
+            }
+        }
+    }
+    out
+}
+
+/// A synthetic comment: (start line, start character, end line, end character, source start,
+/// source end, comment text).
+pub type CommentIn = (usize, usize, usize, usize, usize, usize, String);
+
+fn block_dump(block: &crate::blocks::Block) -> Value {
+    json!({
+        "attrs": block.attributes,
+        "tag": [
+            block.start_tag_position_range.start().line,
+            block.start_tag_position_range.start().character,
+            block.start_tag_position_range.end().line,
+            block.start_tag_position_range.end().character,
+        ],
+        "cbytes": [block.content_bytes_range.start, block.content_bytes_range.end],
+        "cpos": [
+            block.content_position_range.start.line,
+            block.content_position_range.start.character,
+            block.content_position_range.end.line,
+            block.content_position_range.end.character,
+        ],
+    })
+}
+
+/// Runs the block pairing on synthetic comments (bypasses tree-sitter).
+pub fn blocks_from_comments(comments: Vec<CommentIn>) -> Result<Vec<Value>, String> {
+    let comments = comments.into_iter().map(|(sl, sc, el, ec, ss, se, text)| Comment {
+        position_range: Position::new(sl, sc)..Position::new(el, ec),
+        source_range: ss..se,
+        comment_text: text,
+    });
+    parse_blocks_from_comments(comments)
+        .map(|blocks| blocks.iter().map(block_dump).collect())
+        .map_err(|e| format!("{e:#}"))
+}
+
+/// Dumps every block of the context with its geometry and modification flags.
+pub fn context_dump(context: &ValidationContext) -> Value {
+    let mut files = serde_json::Map::new();
+    for (path, file_blocks) in &context.blocks {
+        let blocks: Vec<Value> = file_blocks
+            .blocks_with_context
+            .iter()
+            .map(|b| {
+                let mut v = block_dump(&b.block);
+                v["tag_modified"] = json!(b._is_start_tag_modified);
+                v["content_modified"] = json!(b.is_content_modified);
+                v
+            })
+            .collect();
+        files.insert(path.display().to_string(), Value::Array(blocks));
+    }
+    Value::Object(files)
+}
